@@ -78,7 +78,12 @@ func worldCase(env *core.Env, prop string, idx int) (*gen.World, gen.WorldOpts, 
 		o.MaxDepth = 1 + rng.Intn(3)
 		o.RefDensity = []float64{0.25, 0.45, 0.7}[rng.Intn(3)]
 	}
-	return gen.GenWorld(rng, o), o, rng
+	w := gen.GenWorld(rng, o)
+	if idx >= ns && idx%5 == 0 {
+		// the same reference graph served from http locations: other ports, hosts and schemes with namesake paths
+		w = gen.Relocate(w, gen.Layouts[(idx/5)%len(gen.Layouts)])
+	}
+	return w, o, rng
 }
 
 var rxDigits = regexp.MustCompile(`[0-9]+`)
@@ -198,7 +203,7 @@ func c02Run(env *core.Env, idx int) core.CaseResult {
 
 func worldFloors(env *core.Env) []string {
 	f := []string{"world.acyclic", "world.cyclic", "feat.cross-document-ref", "feat.nested-target", "feat.holder.schema", "feat.holder.parameter",
-		"feat.holder.response", "feat.holder.pathItem", "positions-compared"}
+		"feat.holder.response", "feat.holder.pathItem", "positions-compared", "feat.layout.ports", "feat.layout.hosts", "feat.layout.schemes"}
 	for _, p := range []string{"schema:properties", "schema:items", "schema:allOf", "schema:anyOf", "schema:oneOf", "schema:not", "schema:additionalProperties",
 		"schema:patternProperties", "schema:dependencies", "schema:additionalItems", "schema:definitions", "schema:definition", "schema:parameter.schema",
 		"schema:response.schema", "pathItem", "pathItem.parameters", "operation.parameters", "operation.responses"} {
@@ -381,7 +386,7 @@ func init() {
 		ID:    "C02",
 		Level: "exploration",
 		Rule: "G-WORLD: 1-5 documents in different directories/hosts, colliding element names, unique marker per node; structured part = one world per ($ref form x directory relation) cell x k; random part = seeded worlds " +
-			"(cycles, nested targets, $ref siblings, escaped names, prefix-named documents, whole-document refs); each world expanded R times (map order) with AbsoluteCircularRef on/off; " +
+			"(cycles, nested targets, $ref siblings, escaped names, prefix-named documents, whole-document refs; every fifth one relocated to http locations with the cousin directory at the namesake path on another port, host or scheme); each world expanded R times (map order) with AbsoluteCircularRef on/off; " +
 			"monitor = bisimulation (O-DEN) of every definition/parameter/response/path item between input world and input-with-root-replaced-by-output. non-trivial = cross-document $ref or cycle; distinct by world content",
 		NumCases: c02Total,
 		Run:      c02Run,
@@ -398,7 +403,7 @@ func init() {
 		NumCases: c03NumCases,
 		Run:      c03Run,
 		Floors: func(env *core.Env) []string {
-			return append(worldFloors(env)[:8], "kept-refs", "kept.absolute-form", "kept.into-root", "kept.into-other-document", "world.acyclic", "world.cyclic", "denormalize-pairs")
+			return append(worldFloors(env)[:8], "kept-refs", "kept.absolute-form", "kept.into-root", "kept.into-other-document", "world.acyclic", "world.cyclic", "denormalize-pairs", "feat.layout.ports", "feat.layout.hosts", "feat.layout.schemes")
 		},
 		Assumptions: []string{"surface form is checked in the weak reading: fragment-only is required for targets inside the root document, other targets may be relative or absolute"},
 	})
